@@ -37,8 +37,8 @@ def gen_ast(rng, na=None, S=None, P=None, L=None, two_sided_lists=True, maxS=5, 
         return rng.choice([1, 1, 1, 2, 2, 3])
 
     def lowq(u):
-        if lower and rng.random() < 0.25 and u > 0:
-            return rng.randint(0, u)
+        if lower and rng.random() < 0.3 and u > 0:
+            return rng.choice([rng.randint(0, u), u])      # lower quotas of 2 and 3 must occur (closures!)
         return 0
     projects = []
     for j in range(P):
